@@ -109,12 +109,13 @@ def group(id, G, kind, a, layout, stream):
     w(f"\t\t\tr.FromJacobian(&acc)")
     w(f"\t\t\treturn toPt(&r)")
     w(f"\t\t}}")
+    # receivers holding a value (decode histories on single points): every curve
+    w(f"\t\tg.mkPtr = func(q c07Pt) any {{ p := fromPt(q); return &p }}")
+    w(f"\t\tg.newPtr = func() any {{ return new({id}.{G}Affine) }}")
+    w(f"\t\tg.ptrVal = func(v any) c07Pt {{ return toPt(v.(*{id}.{G}Affine)) }}")
     if stream:
-        w(f"\t\tg.mkPtr = func(q c07Pt) any {{ p := fromPt(q); return &p }}")
         w(f"\t\tg.mkSlice = func(qs []c07Pt) any {{ s := make([]{id}.{G}Affine, len(qs)); for i := range qs {{ s[i] = fromPt(qs[i]) }}; return s }}")
         w(f"\t\tg.mkSlicePtr = func(qs []c07Pt) any {{ s := make([]{id}.{G}Affine, len(qs)); for i := range qs {{ s[i] = fromPt(qs[i]) }}; return &s }}")
-        w(f"\t\tg.newPtr = func() any {{ return new({id}.{G}Affine) }}")
-        w(f"\t\tg.ptrVal = func(v any) c07Pt {{ return toPt(v.(*{id}.{G}Affine)) }}")
         w(f"\t\tg.newSlicePtr = func() any {{ return new([]{id}.{G}Affine) }}")
         w(f"\t\tg.sliceVal = func(v any) []c07Pt {{ s := *(v.(*[]{id}.{G}Affine)); r := make([]c07Pt, len(s)); for i := range s {{ r[i] = toPt(&s[i]) }}; return r }}")
     w(f"\t\tc.{G.lower()} = g")
